@@ -148,3 +148,20 @@ def bearing_ieee(a):
             if not (0 <= got < 360):
                 msgs.append('%s: bearing %r is not in [0, 360)' % (fn, got))
     return bool(msgs), '; '.join(msgs[:2]) or 'bearing in range for theta=%r' % th
+
+
+def vapour(a):
+    """humidity2part_water_vapour_press against the definition (Giacomo 1982 saturation vapour pressure), incl. very dry air"""
+    import mpmath as mp
+    from geodepy import survey as sv
+    env = a.get('env', {})
+    msgs = []
+    pts = [(_f(env.get('h'), 50.0), _f(env.get('t'), 20.0))] + [(h, t) for h in (0.0, 0.01, 0.5, 1.0, 1.5, 37.0, 100.0) for t in (-20.0, 0.0, 20.0, 45.0)]
+    for h, t in pts:
+        tk = mp.mpf(t) + mp.mpf('273.15')
+        svp = mp.exp(mp.mpf('1.2378847e-5') * tk * tk + mp.mpf('-1.9121316e-2') * tk + mp.mpf('33.93711047') + mp.mpf('-6.3431645e3') / tk)
+        exp = mp.mpf(h) / 100 * svp / 100
+        got = sv.humidity2part_water_vapour_press(h, t)
+        if abs(mp.mpf(got) - exp) > mp.mpf('1e-9') * max(1, abs(exp)):
+            msgs.append('humidity2part_water_vapour_press(%r %%, %r C) = %r hPa, definition gives %s' % (h, t, got, mp.nstr(exp, 12)))
+    return bool(msgs), '; '.join(msgs[:3]) if msgs else 'vapour pressure follows the definition'
